@@ -352,6 +352,18 @@ class Builder:
                 other.add(sig)
                 self._keep = getattr(self, "_keep", []) + [other]
             return sig
+        if t in ("evicted", "pref_evicted"):
+            # an object that WAS this module's, until its name was given to something else: it is nobody's now
+            mod = ctx["mod"]
+            if mod is None:
+                raise ValueError("evicted objects need a procedural module")
+            if t == "evicted":
+                old = mod.add(h.Signal(width=e[1]), name="zz_ev")
+                setattr(mod, "zz_ev", h.Signal(width=e[1] + (1 if len(e) > 2 and e[2] == "wider" else 0)))
+                return old
+            old = mod.add(h.Instance(of=self.target(e[1], 998)), name="zz_evi")
+            setattr(mod, "zz_evi", h.Signal())
+            return getattr(old, e[2])
         if t in ("orphan_bun", "foreign_bun"):
             bi = self.bundle(e[1])()
             bi.name = "zz_%s" % t
